@@ -543,6 +543,12 @@ pub fn direct_oracle(script: &str, trace: &str) -> Vec<String> {
                 }
             }
         }
+        // no transfer for a link the peer has detached
+        if let Some((at, _)) = peer_det_at {
+            if i > at && wire.iter().any(|t| t.starts_with('T')) && ends == 0 {
+                v.push(format!("c13-transfer-after-remote-detach: a transfer was written at step {} although the peer detached the link at step {}", i, at));
+            }
+        }
         // ... and the error it carried is what the caller of the next link operation gets
         if peer_det_err && !det_err_reported {
             for tok in st.split_whitespace() {
@@ -806,6 +812,132 @@ pub fn run_flush(dir: &str) {
                 out.case(&line, &t);
             }
         }
+    }
+    out.finish(dir);
+}
+
+// ------------------------------------------------------------------------------------------
+// sender link scripts compared with the Coq model Link/LinkLife.v (tag `lifel`)
+// ------------------------------------------------------------------------------------------
+
+/// legality of the next event given the events so far: the peer stays within the protocol, and the two
+/// combinations whose outcome depends on the order in which tokio::select! polls (recorded findings: a local
+/// detach()/close() meeting an unseen peer detach of the other kind) are left to the `life` sub
+fn link_legal(cur: &[&str], e: &str) -> bool {
+    let pa = cur.contains(&"pa");
+    let pdet = cur.iter().find(|x| matches!(**x, "pd" | "pdc" | "pde")).cloned();
+    let credit = cur.contains(&"pflow");
+    // deliveries actually in flight: a send() only starts when the sender is in the application's hands
+    let (mut free, mut inflight, mut have_credit) = (false, 0usize, false);
+    for x in cur {
+        match *x {
+            "pa" => free = true,
+            "pflow" => {
+                if have_credit || !free {
+                    // a blocked send goes out now
+                }
+                if !have_credit && !free && inflight == 0 && cur.contains(&"send") {
+                    inflight = 1;
+                }
+                have_credit = true;
+            }
+            "send" if free => {
+                free = false;
+                if have_credit {
+                    inflight += 1;
+                }
+            }
+            "pacc" if inflight > 0 => {
+                inflight -= 1;
+                free = true;
+            }
+            "det" | "cls" | "dropl" if free => free = false,
+            "abortl" => {
+                free = false;
+                inflight = 0;
+            }
+            _ => {}
+        }
+    }
+    let (sends, accs) = (inflight, 0usize);
+    match e {
+        "pa" => !pa,
+        "pd" | "pdc" | "pde" => pa && pdet.is_none(),
+        "pflow" => pa && pdet.is_none(),
+        "pacc" => pa && pdet.is_none() && credit && sends > accs,
+        "det" => !matches!(pdet, Some("pdc") | Some("pde")),
+        "cls" => !matches!(pdet, Some("pd")),
+        // with credit in hand and a peer detach unseen, send() races the two (select!): either outcome occurs
+        "send" => !(pdet.is_some() && credit),
+        _ => true,
+    }
+}
+
+pub fn run_link_model(seed: u64, n: u64, thorough: bool, corpus: &[String], dir: &str) {
+    crate::codec::quiet_panics();
+    let mut out = Outputs::new(dir);
+    let mut r = Rng::new(seed);
+    let mut scripts: Vec<String> = Vec::new();
+    for l in corpus {
+        if let Some(s) = l.strip_prefix("lifel ") {
+            out.count("corpus_cases");
+            scripts.push(s.to_string());
+        }
+    }
+    let alphabet = ["pa", "det", "cls", "dropl", "abortl", "pd", "pdc", "pde", "send", "pflow", "pacc"];
+    let maxlen = if thorough { 5 } else { 4 };
+    let mut stack: Vec<Vec<&str>> = vec![vec!["pa"]];
+    while let Some(cur) = stack.pop() {
+        scripts.push(cur.join(" ; "));
+        if cur.len() < maxlen {
+            for e in alphabet.iter() {
+                if link_legal(&cur, e) {
+                    let mut nx = cur.clone();
+                    nx.push(e);
+                    stack.push(nx);
+                }
+            }
+        }
+    }
+    out.add("enumerated_scripts", scripts.len() as u64);
+    for _ in 0..n {
+        let mut cur: Vec<&str> = vec!["pa"];
+        let len = r.range(3, 10);
+        let mut guard = 0;
+        while (cur.len() as u64) < len && guard < 100 {
+            guard += 1;
+            let e = match r.below(14) {
+                0..=2 => "send",
+                3..=4 => "pflow",
+                5..=6 => "pacc",
+                _ => *r.pick(&alphabet),
+            };
+            if link_legal(&cur, e) {
+                cur.push(e);
+            }
+        }
+        scripts.push(cur.join(" ; "));
+    }
+    for s in scripts {
+        let line = format!("lifel {}", s);
+        let full = format!("begin ; pb ; att ; {}", s);
+        let t = match std::panic::catch_unwind(|| run_script(&full)) {
+            Ok(t) => t,
+            Err(_) => "HARNESS-PANIC".to_string(),
+        };
+        // the prelude's three steps are not part of the model's trace
+        let t = t.strip_prefix("B0 ;  begin=ok ; A0h0s ; ").map(|x| x.to_string()).unwrap_or(t);
+        for ev in s.split(';') {
+            out.count(&format!("ev_{}", ev.trim()));
+        }
+        if t.contains("send=Accepted") || t.contains("det=") || t.contains("cls=") {
+            out.nontrivial(&line);
+        }
+        for v in direct_oracle(&full, &format!("B0 ;  begin=ok ; A0h0s ; {}", t)) {
+            let class = v.split(':').next().unwrap_or("?").to_string();
+            out.violation(&class, &format!("{} | script `{}` -> {}", v, full, t), &line);
+        }
+        out.case(&line, &t);
     }
     out.finish(dir);
 }
